@@ -5,8 +5,8 @@ PID = 'C07'
 
 
 def run(ctx, out):
-    deep = [kgen.gen_delete_case(ctx.rng, nres=ctx.rng.choice([0, 1])) for _ in range(400 if ctx.tier != 'thorough' else 8000)]
-    kprop.run(ctx, out, PID, ['C07'], {'outcome','values','ownership'}, 2000, 40000, pool=kgen.REF_TEMPLATES, weights={'delete':0.12,'res':0.06}, p_wrong=0.03, extra_cases=deep)
+    deep = [kgen.gen_delete_case(ctx.rng, nres=ctx.rng.choice([0, 1])) for _ in range(400 if ctx.tier != 'thorough' else 5000)]
+    kprop.run(ctx, out, PID, ['C07'], {'outcome','values','ownership'}, 2000, 30000, pool=kgen.REF_TEMPLATES, weights={'delete':0.12,'res':0.06}, p_wrong=0.03, extra_cases=deep)
 
 
 def replay(ctx, rep):
